@@ -59,3 +59,45 @@ Example C06_dominator_chain_nonvacuous :
   safe_for_edges cycG 0%N 3%N [(1, 2)%N] [(1, 2); (2, 3)]%N.
 Proof. exact cyc_dominator_chain. Qed.
 Print Assumptions C06_dominator_chain_nonvacuous.
+
+(* ---- the computations of safetypathcoverscycles.py (DomAlg.v).  find_idom(adj, v, t) returns the FIRST arc common to all v-t walks
+   (the code finds it with one augmenting path and a residual search; the answer is canonical and the model computes it from the
+   definition with the verified closure; the E3 stream E3_dominator_sequences compares the two arc by arc).  Precondition: t is
+   reachable from v -- on a dead-end graph the code's find_path does not arrive and find_idom raises IndexError (DESIGN 10.3). *)
+From FP Require Import DomAlg.
+Theorem C06_find_idom_is_the_first_dominator : forall (G : graph) (v t : node) (bs : list edge),
+  (exists w, st_walk G v t w) -> dom_order G v t bs -> first_bridge G v t = hd_error bs.
+Proof. exact first_bridge_correct. Qed.
+Print Assumptions C06_find_idom_is_the_first_dominator.
+
+(* iterating it (Arc_Dominator_Tree.get_dominators) lists the dominators in their order *)
+Theorem C06_dominator_chain_model_is_the_dominator_order : forall (G : graph) (t : node) (n : nat) (v : node) (bs : list edge),
+  (exists w, st_walk G v t w) -> dom_order G v t bs -> (length bs < n)%nat -> dom_chain G n v t = bs.
+Proof. exact dom_chain_correct. Qed.
+Print Assumptions C06_dominator_chain_model_is_the_dominator_order.
+
+(* the sequence built for an arc -- reversed dominators towards the source, the arc, dominators towards the sink -- is its dominator chain *)
+Theorem C06_dominator_sequence_is_the_dominator_chain : forall (G : graph) (s t : node) (e : edge),
+  (exists w, st_walk G s (fst e) w) -> (exists w, st_walk G (snd e) t w) ->
+  exists bl br, dom_order G s (fst e) bl /\ dom_order G (snd e) t br /\ dom_sequence G s t e = bl ++ e :: br.
+Proof. exact dom_sequence_is_the_dominator_chain. Qed.
+Print Assumptions C06_dominator_sequence_is_the_dominator_chain.
+
+(* every sequence of the model of maximal_safe_sequences_via_dominators (dominator trees restricted to X, unitary paths, cores, chains)
+   is safe, on every digraph in which the arcs of X lie between the source and the sink *)
+Theorem C06_dominator_sequences_are_safe : forall (G : graph) (s t : node) (X : list edge),
+  (forall e, In e X -> (exists w, st_walk G s (fst e) w) /\ (exists w, st_walk G (snd e) t w)) ->
+  forall q, In q (dominator_sequences G s t X) -> safe_for_edges G s t X q.
+Proof. exact dominator_sequences_safe. Qed.
+Print Assumptions C06_dominator_sequences_are_safe.
+
+Example C06_dominator_model_on_the_cycle_graph :
+  dom_sequence cycG 0%N 3%N (1, 2)%N = [(1, 2); (2, 3)]%N /\ first_bridge cycG 2%N 3%N = Some (2, 3)%N /\
+  dom_sequence cycG 0%N 3%N (4, 1)%N = [(0, 4); (4, 1); (1, 2); (2, 3)]%N.
+Proof. exact cyc_dom_sequence. Qed.
+Print Assumptions C06_dominator_model_on_the_cycle_graph.
+
+Example C06_dominator_sequences_on_the_cycle_graph :
+  dominator_sequences cycG 0%N 3%N [(1, 2); (4, 1)]%N = [[(0, 4); (4, 1); (1, 2); (2, 3)]%N].
+Proof. exact cyc_sequences. Qed.
+Print Assumptions C06_dominator_sequences_on_the_cycle_graph.
